@@ -4,6 +4,9 @@ import (
 	"net/url"
 	"time"
 
+	pb "github.com/ipfs/ipfs-cluster/api/pb"
+	proto "google.golang.org/protobuf/proto"
+
 	cid "github.com/ipfs/go-cid"
 	peer "github.com/libp2p/go-libp2p-core/peer"
 	multiaddr "github.com/multiformats/go-multiaddr"
@@ -13,6 +16,7 @@ var vrfEntries = map[string]func(){
 	"VrfC08Proto": VrfC08Proto,
 	"VrfC08Query": VrfC08Query,
 	"VrfC08Enums": VrfC08Enums,
+	"VrfC08ProtoForeign": VrfC08ProtoForeign,
 }
 
 var vrfCidStrs = []string{
@@ -237,4 +241,74 @@ func VrfC08Enums() {
 	vrf_assert(vrf_implies(txt == "pinned", ts == TrackerStatusPinned), "C08.enums.status-name")
 	vrf_assert(vrf_implies(txt == "bogus", ts == TrackerStatusUndefined), "C08.enums.status-unknown")
 	vrf_reach("C08.enums.end")
+}
+
+// VrfC08ProtoForeign: the stored form written by somebody else (or damaged): a
+// protobuf pin message whose byte fields are each well-formed or garbage.
+// Decoding it either fails or yields a pin that can be used and re-encoded:
+// no nil origin, no crash in ProtoMarshal / ToQuery / Equals.
+func VrfC08ProtoForeign() {
+	garbage := []byte{0xff, 0x00, 0x01}
+	bytesOf := func(kind int, good []byte) []byte {
+		switch kind {
+		case 0:
+			return good
+		case 1:
+			return garbage
+		}
+		return nil
+	}
+	m := &pb.Pin{}
+	m.Cid = bytesOf(vrf_choice("cid_bytes", 2), vrfC(0).Bytes())
+	m.Type = pb.Pin_PinType([]int32{0, 1, 4, 100}[vrf_choice("type", 4)])
+	m.MaxDepth = []int32{-1, 0, 1}[vrf_choice("max_depth", 3)]
+	m.Reference = bytesOf(1+vrf_choice("reference_bytes", 2), vrfC(2).Bytes())
+	for i := 0; i < 1; i++ {
+		if k := vrf_choice("allocation_bytes", 3); k < 2 {
+			m.Allocations = append(m.Allocations, bytesOf(k, []byte(vrfP(i))))
+		}
+	}
+	if vrf_choice("has_options", 2) == 1 {
+		o := &pb.PinOptions{}
+		// (the numeric and text fields are covered symbolically by VrfC08Proto; here
+		// they are fixed so that the byte fields can be varied exhaustively)
+		o.ReplicationFactorMin, o.ReplicationFactorMax = 1, 2
+		o.Name = "n"
+		o.ShardSize = 7
+		o.ExpireAt = 0 // (the RFC3339 text of an expiry in the query form is outside the model)
+		o.PinUpdate = bytesOf(vrf_choice("update_bytes", 2), vrfC(1).Bytes())
+		for i := 0; i < 2; i++ {
+			switch vrf_choice("origin_bytes", 4) {
+			case 0:
+				o.Origins = append(o.Origins, vrfMA(i).Bytes())
+			case 1:
+				o.Origins = append(o.Origins, garbage)
+			case 2:
+				o.Origins = append(o.Origins, []byte{})
+			}
+		}
+		m.Options = o
+	}
+	data, err := proto.Marshal(m)
+	vrf_assert(err == nil, "C08.foreign.message-built")
+	var pin Pin
+	derr := pin.ProtoUnmarshal(data)
+	if derr != nil {
+		vrf_reach("C08.foreign.end-refused")
+		return
+	}
+	for _, o := range pin.Origins {
+		vrf_assert(o != nil, "C08.foreign.no-nil-origin")
+	}
+	for _, a := range pin.Allocations {
+		vrf_assert(a != "", "C08.foreign.no-empty-allocation")
+	}
+	// the decoded pin can be used: re-encoded, turned into a query, compared
+	_, merr := pin.ProtoMarshal()
+	vrf_assert(merr == nil, "C08.foreign.re-encodes")
+	_, qerr := pin.PinOptions.ToQuery()
+	vrf_assert(qerr == nil, "C08.foreign.to-query")
+	cp := pin
+	vrf_assert(pin.PinOptions.Equals(&cp.PinOptions), "C08.foreign.equals-itself")
+	vrf_reach("C08.foreign.end-decoded")
 }
